@@ -1020,6 +1020,83 @@ pub fn extras(thorough: bool) -> Vec<Extra> {
             }
         }
     }
+    // (p) the upsert clause assembled in every call order: all permutations of all subsets of { target_and_where,
+    //     action_and_where, value, update_column } holding at least one assignment. Conditions and assignments accumulate
+    //     independently of each other, in call order
+    {
+        fn perms(items: &[u8]) -> Vec<Vec<u8>> {
+            if items.is_empty() {
+                return vec![vec![]];
+            }
+            let mut out = vec![];
+            for i in 0..items.len() {
+                let mut rest = items.to_vec();
+                let x = rest.remove(i);
+                for mut p in perms(&rest) {
+                    p.insert(0, x);
+                    out.push(p);
+                }
+            }
+            out
+        }
+        let mut orders: Vec<Vec<u8>> = vec![];
+        for mask in 1u8..16 {
+            let items: Vec<u8> = (0..4u8).filter(|i| mask & (1 << i) != 0).collect();
+            if !items.iter().any(|i| *i >= 2) {
+                continue;
+            }
+            orders.extend(perms(&items));
+        }
+        for order in orders {
+            let o1 = order.clone();
+            let o2 = order.clone();
+            v.push(Extra {
+                name: format!("upsert-call-order {:?}", order),
+                real: Box::new(move |d, build| {
+                    let mut oc = OnConflict::column(a("id"));
+                    for c in &o1 {
+                        match c {
+                            0 => oc.target_and_where(Expr::col(a("a")).gt(5)),
+                            1 => oc.action_and_where(Expr::col((a("t1"), a("a"))).lt(9)),
+                            2 => oc.value(a("b"), 7),
+                            _ => oc.update_column(a("a")),
+                        };
+                    }
+                    let q = Query::insert().into_table(a("t1")).columns([a("id"), a("a")]).values_panic([1.into(), 2.into()]).on_conflict(oc).to_owned();
+                    render_any(&q, d, build)
+                }),
+                reference: Box::new(move |d, build| {
+                    let q = |n: &str| qd(d, n);
+                    let mut n = 0;
+                    let mut p = |lit: &str| {
+                        n += 1;
+                        ph(d, build, n, lit)
+                    };
+                    let mut s = format!("INSERT INTO {} ({}, {}) VALUES ({}, {})", q("t1"), q("id"), q("a"), p("1"), p("2"));
+                    let my = d == Dialect::Mysql;
+                    if my {
+                        s.push_str(" ON DUPLICATE KEY UPDATE ");
+                    } else {
+                        s.push_str(&format!(" ON CONFLICT ({})", q("id")));
+                        if o2.contains(&0) {
+                            s.push_str(&format!(" WHERE {} > {}", q("a"), p("5")));
+                        }
+                        s.push_str(" DO UPDATE SET ");
+                    }
+                    let assigns: Vec<String> = o2
+                        .iter()
+                        .filter(|c| **c >= 2)
+                        .map(|c| if *c == 2 { format!("{} = {}", q("b"), p("7")) } else if my { format!("{} = VALUES({})", q("a"), q("a")) } else { format!("{} = {}.{}", q("a"), q("excluded"), q("a")) })
+                        .collect();
+                    s.push_str(&assigns.join(", "));
+                    if !my && o2.contains(&1) {
+                        s.push_str(&format!(" WHERE {}.{} < {}", q("t1"), q("a"), p("9")));
+                    }
+                    Some(s)
+                }),
+            });
+        }
+    }
     // (g) PostgreSQL operators and functions in WHERE, between two other conditions; MySQL has none of them
     let pg_ops: Vec<(&'static str, PgBinOper)> = vec![
         ("ILIKE", PgBinOper::ILike),
@@ -1444,7 +1521,7 @@ pub fn extras(thorough: bool) -> Vec<Extra> {
 /// one construct = one key: the family name (for the parameterised families the first word)
 pub fn family_of(name: &str) -> String {
     let first = name.split(' ').next().unwrap_or("").to_string();
-    if ["index-hints", "named-window", "with", "lock", "tablesample", "distinct-on", "order-by", "window-frame", "values-table", "cte-from-select", "distinct-limit-offset"].contains(&first.as_str()) {
+    if ["index-hints", "named-window", "with", "lock", "tablesample", "distinct-on", "order-by", "window-frame", "values-table", "cte-from-select", "distinct-limit-offset", "upsert-call-order"].contains(&first.as_str()) {
         first
     } else {
         name.split(' ').take(2).collect::<Vec<_>>().join(" ")
